@@ -20,6 +20,33 @@ def trunc_instr(draw):
 
 
 @st.composite
+def tree_cases(draw, tier):
+    """the tree half of the property: random / summed TTNS on generated trees, truncated with generated limits; the bounds are
+    checked per edge by vf.tree.TInterp.i_truncate (signatures trunc.*)"""
+    from vf import tree as T
+
+    ts = draw(T.tree_specs(2, 6, kinds=T.STATE_KINDS, max_dim=128 if tier == "quick" else 256, small_sho=True, allow_single=False))
+    prog = []
+    qsel = draw(st.integers(0, 50))
+    for _ in range(draw(st.integers(1, 3))):
+        ins = draw(T.create_instr(("random",)))
+        ins["q"] = qsel
+        prog.append(ins)
+    for _ in range(draw(st.integers(0, 2))):
+        prog.append({"op": draw(st.sampled_from(["add", "cadd"])), "a": draw(st.integers(0, 20)), "b": draw(st.integers(0, 20)), "meth": 0})
+    for _ in range(draw(st.integers(1, 3))):
+        prog.append(draw(T.trunc_instr()))
+    return {"part": "tree", "tree": ts, "prog": prog}
+
+
+@st.composite
+def all_cases(draw, tier):
+    if draw(st.integers(0, 3)) == 0:
+        return draw(tree_cases(tier))
+    return draw(cases(tier))
+
+
+@st.composite
 def cases(draw, tier):
     spec = draw(chain.chain_model_specs(3, 7, max_dim=256 if tier == "quick" else 1024))
     has_multi_or_dummy = any(s["k"] in ("multi", "dummy") for s in spec["sites"])
@@ -203,9 +230,24 @@ class C05(Prop):
         return dict(examples=800, shards=16) if tier == "quick" else dict(examples=30000, shards=16)
 
     def strategy(self, tier):
-        return cases(tier)
+        return all_cases(tier)
+
+    def run_tree(self, case):
+        from vf import tree as T
+        from vf.props.c11 import Hooks as TreeHooks
+
+        r = Result()
+        it = T.TInterp(case["tree"], r, TreeHooks())
+        it.run(case["prog"])
+        cl = set(r.classes)
+        r.nontrivial = "trunc.truncated" in cl or any(c.startswith("trunc.cut") for c in cl) or bool(r.info.get("truncated"))
+        r.classes = sorted(cl) + ["part.tree"]
+        r.info = {}
+        return r
 
     def run_case(self, case):
+        if case.get("part") == "tree":
+            return self.run_tree(case)
         r = Result()
         it = Interp05(case["model"], r, None)
         it.run(case["prog"])
@@ -215,6 +257,8 @@ class C05(Prop):
         return r
 
     def sample_view(self, case):
+        if case.get("part") == "tree":
+            return {"part": "tree", "topo": case["tree"]["topo"], "sites": [s["k"] for s in case["tree"]["model"]["sites"]], "prog": case["prog"]}
         return {"sites": [s["k"] for s in case["model"]["sites"]], "qnmode": case["model"].get("qnmode"),
                 "prog": [{k: v for k, v in i.items() if k != "terms"} for i in case["prog"]]}
 
